@@ -1,4 +1,5 @@
 import Proofs.Do
+import Model.Timing
 /-
 C10 — Cancellation ends the query, sends Cancel and closes the connection (the part that is logic).
 
@@ -61,6 +62,73 @@ theorem C10_cancel_returns_closed (acts : List SendAct) (pkts : List SrvPkt) (sc
     by_cases hc : s.closed = true
     · simp [hc]
     · simp [he, hc, hx, C10.full]
+
+/-! ### promptness (discrete-time model of the receive loop) -/
+
+open Model.Timing in
+theorem C10.notice_aux (readTO : Nat) (ctxD : Option Nat) (hr : 0 < readTO) :
+    ∀ (fuel now cancel : Nat), cancel ≤ now + fuel * readTO →
+      noticeAt (fun n => attemptDeadline n readTO ctxD) fuel now cancel ≤ max now cancel + readTO := by
+  intro fuel
+  induction fuel with
+  | zero => intro now cancel _; simp [noticeAt]; omega
+  | succ f ih =>
+    intro now cancel hf
+    simp only [noticeAt]
+    by_cases h1 : cancel ≤ now
+    · simp only [h1, ↓reduceIte]; omega
+    · simp only [h1, ↓reduceIte]
+      by_cases h2 : attemptDeadline now readTO ctxD ≤ now
+      · simp only [h2, ↓reduceIte]; omega
+      · simp only [h2, ↓reduceIte]
+        have hd : attemptDeadline now readTO ctxD ≤ now + readTO := by
+          unfold attemptDeadline; cases ctxD <;> simp <;> omega
+        by_cases h3 : cancel ≤ attemptDeadline now readTO ctxD
+        · -- noticed at the end of this attempt
+          cases f with
+          | zero => simp [noticeAt]; omega
+          | succ g => simp only [noticeAt, h3, ↓reduceIte]; omega
+        · -- the attempt ended before the cancellation
+          cases ctxD with
+          | none =>
+            have hmin : attemptDeadline now readTO none = now + readTO := rfl
+            have := ih (now + readTO) cancel (by rw [Nat.succ_mul] at hf; omega)
+            rw [hmin]; omega
+          | some d =>
+            by_cases hdd : now + readTO ≤ d
+            · have hmin : attemptDeadline now readTO (some d) = now + readTO := by
+                unfold attemptDeadline; exact Nat.min_eq_left hdd
+              have := ih (now + readTO) cancel (by rw [Nat.succ_mul] at hf; omega)
+              rw [hmin]; omega
+            · -- the context deadline d comes first and lies before the cancellation: the loop ends at d
+              have hmin : attemptDeadline now readTO (some d) = d := by
+                unfold attemptDeadline; exact Nat.min_eq_right (by omega)
+              rw [hmin] at h3 h2 ⊢
+              cases f with
+              | zero => simp [noticeAt]; omega
+              | succ g =>
+                have hself : attemptDeadline d readTO (some d) = d := by
+                  unfold attemptDeadline; exact Nat.min_eq_right (by omega)
+                simp only [noticeAt, h3, ↓reduceIte, hself, Nat.le_refl]
+                omega
+
+open Model.Timing in
+/-- **Cancellation is noticed within one read timeout**: with the receive loop blocked on a silent
+server, a cancellation at instant `cancel` is noticed no later than `cancel + readTimeout`,
+whatever deadline the caller's context carries. -/
+theorem C10_noticed_within_read_timeout (readTO cancel : Nat) (ctxD : Option Nat) (hr : 0 < readTO) :
+    noticeAt (fun n => attemptDeadline n readTO ctxD) (cancel + 1) 0 cancel ≤ cancel + readTO := by
+  have := C10.notice_aux readTO ctxD hr (cancel + 1) 0 cancel (by
+    have : (cancel + 1) * 1 ≤ (cancel + 1) * readTO := Nat.mul_le_mul_left _ hr
+    omega)
+  simpa using this
+
+open Model.Timing in
+/-- letting a far context deadline replace the read timeout loses that bound: cancelled at 5 with a
+read timeout of 3 and a deadline at 1000, the loop notices at 1000 -/
+theorem C10_ctx_deadline_first_refuted :
+    noticeAt (fun n => attemptDeadlineCtxFirst n 3 (some 1000)) 10 0 5 = 1000 ∧
+    noticeAt (fun n => attemptDeadline n 3 (some 1000)) 10 0 5 = 6 := by decide
 
 /-! ### non-vacuity: cancellation while a streamed insert waits for the server -/
 example : let s := finish C10.full (run C10.full (init [.encode 9, .flush none, .callback false, .encode 3, .flush none] [.ok])
